@@ -452,6 +452,11 @@ func (s *Scanner) Scan(foundCert func(*ct.LogEntry, string),
 	s.unparsableEntries = 0
 	s.entriesWithNonFatalErrors = 0
 
+	if s.opts.BatchSize <= 0 {
+		// The partition loop below advances by BatchSize and would never end.
+		return 0, fmt.Errorf("scanner: BatchSize must be positive, got %d", s.opts.BatchSize)
+	}
+
 	latestSth, err := s.logClient.GetSTH()
 	if err != nil {
 		return 0, err
